@@ -34,8 +34,9 @@ def run(ck):
     ck.run_rule(o3_same_hasher)
     ck.run_rule(o4_o6_builder)
     ck.run_rule(o5_union)
-    from .c08 import h1_h2_h5_influence, h6_single_source
+    from .c08 import h1_h2_h5_influence, h6_single_source, h4_keys
     ck.run_rule(h1_h2_h5_influence)
+    ck.run_rule(h4_keys)
     ck.run_rule(h6_single_source)
 
 
